@@ -189,6 +189,89 @@ Example ex_scan_errors :
   scan "type T { A int `json" = ([tI "type"; tI "T"; tP KLBrace "{"; tI "A"; tI "int"], [], false).
 Proof. vm_compute. repeat split; reflexivity. Qed.
 
+(* ---- the text layer (Text.v: the layout decisions of the Format methods and the column logic of
+   the tabwriter).  In the sub-language L0 (no comments, struct declarations with struct-free members,
+   no tab or line break inside a token) a checked case's formatted text is, character for character,
+   the model text [ptext a]: indentation, blanks, alignment columns and blank lines included *)
+Theorem checked_text_is_the_model_text : forall c a f,
+  agrees c = true -> c_ast c = Some a -> c_fsrc c = Some f -> c_fout c = OOk ->
+  c_cmts c = [] -> l0 (c_toks c) a = true -> f = ptext a.
+Proof. exact case_text_sound. Qed.
+Print Assumptions checked_text_is_the_model_text.
+
+(* a description in L0 that uses every statement kind, two nested tabwriter passes, an empty struct in
+   a group, an anonymous member with a tag (written without indentation by the code), an empty
+   info block, an empty "()" body and a run of single-line imports *)
+Definition ex_l0 : api :=
+  [ SSyntax """v1"""; SInfo [("title", Lit false """t"""); ("desc", Lit true "`long`")]; SInfo [];
+    SImport """a.api"""; SImport """b.api""";
+    SType ("T", false, DStruct [ (["A"; "B"], DBase "int", Some "`json:""a""`"); ([], DBase "Foo", None);
+                                 (["Name"], DMap (DBase "string") (DSlice (DPtr (DBase "T"))), None) ]);
+    STypes [ ("U", false, DStruct []); ("V", true, DStruct [ ([], DPtr (DBase "T"), Some "`json:""t""`"); (["Long_name"], DAny, None) ]) ];
+    SService (Some [("prefix", SVPath None [("v1", None)]); ("timeout", SVDur "3s")]) "demo" true
+      [ Item (Some (DocLit """d""")) "h" (Route "get" (Path [PSeg false (PId "a") []; PSeg true (PId "id") []] false)
+                                                (Some (Some (Body false true "T"))) (Some (Some (Body true false "T"))));
+        Item (Some (DocGroup [("summary", Lit false """s"""); ("x", Lit false """""")])) "g" (Route "post" (Path [] true) (Some None) None) ];
+    SImport """z.api""" ].
+
+(* its text (format.Source returns exactly this text for it, and for this text: checked on the
+   implementation) *)
+Example ex_l0_text :
+  wf ex_l0 = true /\ l0 (print ex_l0) ex_l0 = true /\
+  ptext ex_l0 = "syntax = ""v1""
+
+info (
+	title: ""t""
+	desc:  `long`
+)
+
+import ""a.api""
+import ""b.api""
+
+type T {
+	A, B int `json:""a""`
+	Foo
+	Name map[string][]*T
+}
+
+type (
+	U  {}
+	V = {
+*T `json:""t""`
+		Long_name any
+	}
+)
+
+@server (
+	prefix:  /v1
+	timeout: 3s
+)
+service demo-api {
+	@doc ""d""
+	@handler h
+	get /a/:id (*T) returns ([]T)
+
+	@doc (
+		summary: ""s""
+		x:       """"
+	)
+	@handler g
+	post /
+}
+
+import ""z.api""
+".
+Proof. vm_compute. repeat split; reflexivity. Qed.
+
+(* the text model and the token model agree on it: scanning the model text gives the tokens and the
+   line structure of the canonical printer, and they parse back to the description (characters ->
+   tokens -> description, through the real layout this time, not through [render]) *)
+Example ex_l0_text_roundtrip :
+  match scan (ptext ex_l0) with
+  | (ts, cs, ok) => ok = true /\ cs = [] /\ ts = first_plain (print (norm ex_l0)) /\ parse ts = Some (norm ex_l0)
+  end.
+Proof. vm_compute. repeat split; reflexivity. Qed.
+
 (* ---- non-vacuity: a program using every construct of the language *)
 Definition ex_api : api :=
   [ SSyntax """v1""";
